@@ -6,7 +6,7 @@
    This file contains only statements closed by `exact`, their assumptions and non-vacuity examples.
    Generated once by tools/genprops.py from the proved lemmas (statements restated verbatim). *)
 From Coq Require Import List NArith ZArith Bool Lia Sorting.Permutation.
-From Viv Require Import Base.Assoc Base.Tree Model.Paths Model.Steps Model.Struct Model.StructC Proofs.Struct_proofs.
+From Viv Require Import Base.Assoc Base.Tree Model.Paths Model.Steps Model.Struct Model.StructC Proofs.Struct_proofs Proofs.Consistent_proofs Proofs.MoveP_proofs.
 Import ListNotations.
 
 (* every node outside the subtrees an operation names keeps its identity (uid) and its value *)
@@ -173,6 +173,68 @@ Theorem C09_cset_frame :
 Proof. exact @cset_frame. Qed.
 Print Assumptions C09_cset_frame.
 
+(* _move with a NESTED source path: the very same subtree sits under the target at the same relative path, the source is gone and reported deleted (the target must not lie inside the moved subtree) *)
+Theorem C09_movep_moves :
+  forall (mk_child : N -> cnode * N) (D : Type) (build : D -> N -> cnode * N)
+           (copy_procs : cnode -> N -> cnode * N) (vr : variant) (t : cnode)
+           (here src tgt : list key) (uid : N) (t' : cnode) (rp : reports) 
+           (uid' : N),
+         cwf t ->
+         starts_with (tgt ++ src) (here ++ src) = false ->
+         apply_op mk_child D build copy_procs vr t here (OpMoveP D src tgt) uid = Ok (t', rp, uid') ->
+         cget t' (tgt ++ src) = cget t (here ++ src) /\
+         cget t (here ++ src) <> None /\
+         cget t' (here ++ src) = None /\ r_deletions rp = [here ++ src] /\ (uid <= uid')%N.
+Proof. exact @movep_moves. Qed.
+Print Assumptions C09_movep_moves.
+
+(* ... every node outside the source subtree and outside target/first-key-of-source keeps identity and value: the siblings of the moved node and its former parent are untouched *)
+Theorem C09_movep_siblings_kept :
+  forall (mk_child : N -> cnode * N) (D : Type) (build : D -> N -> cnode * N)
+           (copy_procs : cnode -> N -> cnode * N) (vr : variant) (t : cnode)
+           (here src tgt : list key) (uid : N) (t' : cnode) (rp : reports) 
+           (uid' : N) (q : list key),
+         apply_op mk_child D build copy_procs vr t here (OpMoveP D src tgt) uid = Ok (t', rp, uid') ->
+         starts_with q (here ++ src) = false ->
+         starts_with q (tgt ++ firstn 1 src) = false -> sig_at t' q = sig_at t q.
+Proof. exact @movep_siblings_kept. Qed.
+Print Assumptions C09_movep_siblings_kept.
+
+(* ... the only new nodes are the established intermediate directories, with fresh identities *)
+Theorem C09_movep_fresh :
+  forall (mk_child : N -> cnode * N) (D : Type) (build : D -> N -> cnode * N)
+           (copy_procs : cnode -> N -> cnode * N) (vr : variant) (t : cnode)
+           (here src tgt : list key) (uid : N) (t' : cnode) (rp : reports) 
+           (uid' : N) (q : list key) (n : cnode),
+         cwf t ->
+         apply_op mk_child D build copy_procs vr t here (OpMoveP D src tgt) uid = Ok (t', rp, uid') ->
+         cget t q = None ->
+         cget t' q = Some n -> starts_with q (tgt ++ src) = false -> (uid <= cuid n < uid')%N.
+Proof. exact @movep_fresh. Qed.
+Print Assumptions C09_movep_fresh.
+
+(* ... a missing target node is rejected *)
+Theorem C09_movep_missing_target_rejected :
+  forall (mk_child : N -> cnode * N) (D : Type) (build : D -> N -> cnode * N)
+           (copy_procs : cnode -> N -> cnode * N) (vr : variant) (t : cnode)
+           (here src tgt : list key) (uid : N),
+         cget t tgt = None ->
+         apply_op mk_child D build copy_procs vr t here (OpMoveP D src tgt) uid = Err EInvalidPath.
+Proof. exact @movep_missing_target_rejected. Qed.
+Print Assumptions C09_movep_missing_target_rejected.
+
+(* ... the hierarchy stays well formed *)
+Theorem C09_movep_wf :
+  forall (mk_child : N -> cnode * N) (D : Type) (build : D -> N -> cnode * N)
+           (copy_procs : cnode -> N -> cnode * N) (vr : variant) (t : cnode)
+           (here src tgt : list key) (uid : N) (t' : cnode) (rp : reports) 
+           (uid' : N),
+         cwf t ->
+         apply_op mk_child D build copy_procs vr t here (OpMoveP D src tgt) uid = Ok (t', rp, uid') ->
+         cwf t'.
+Proof. exact @movep_wf. Qed.
+Print Assumptions C09_movep_wf.
+
 
 (* ---- non-vacuity on the concrete kit (Model/StructC.v) ---- *)
 Definition ex_root : cnode :=
@@ -186,4 +248,7 @@ Example ex_move : exists t' rp, kapply_ops vfixed ex_root [10%N] [OpMove N 20%N 
 Proof. eexists. eexists. split; [vm_compute; reflexivity|]. split; vm_compute; reflexivity. Qed.
 Example ex_outside : outside [10%N; 20%N; 0%N; 1%N] (named N [11%N] (OpAdd N 21%N (Nd []))).
 Proof. intros nm [<-|[]]. reflexivity. Qed.
+
+(* a nested move that fires (Proofs/MoveP_proofs.v) *)
+Check movep_example.
 
